@@ -71,6 +71,11 @@ package nodef
 //@   perreturn
 //@   modifies buf.buf.bytes
 //@   ensures [C03] err == nil && buf.buf.bytes == pre
+//@   site ).Write#0 assert [C03] $2 == 0
+//@   site ).Write#1 assert [C03] $2 == 1
+//@   site ).Write#2 assert [C03] $2 == 2
+//@   site ).Write#3 assert [C03] $2 == 3
+//@   sites ).Write = 4
 //@   safety [C03]
 //
 //@ func (*ServerInfo).WriteBlock
